@@ -26,7 +26,7 @@ fn model_line(s: &str) -> String {
 
 fn check(s: &str, st: &mut Stats) -> String {
     let id = cps(s);
-    let Some(r) = guard(|| GameVersion::from_str(s)) else { st.fail("[C16] GameVersion::from_str panics".into(), id); return "P".into() };
+    let Some(r) = watched("GameVersion::from_str", || id.clone(), || guard(|| GameVersion::from_str(s))) else { st.fail("[C16] GameVersion::from_str panics".into(), id); return "P".into() };
     if let Ok(v) = &r {
         if v.major.is_finite() {
             let p = v.to_string();
